@@ -7,9 +7,11 @@ Ops
 * `sub <exchange> <kind> <inst>*` — `kind ∈ {trades,l1,l2,liqs}`; `inst = base:quote:S | base:quote:P |
   base:quote:F<yyyymmdd> | base:quote:O<yyyymmdd>:<strike>:<C|P>` (formatted from the underlying:
   `Subscription<_, Keyed<usize, MarketDataInstrument>, _>`) or `@<name_exchange>:S | …:P | …:F<yyyymmdd> |
-  …:O<yyyymmdd>:<strike>:<C|P>` (verbatim: `Subscription<_, MarketInstrumentData<usize>, _>`); one `sub`
-  line is all-formatted or all-verbatim (a Rust subscription list has one instrument type); the k-th
-  instrument has key k.
+  …:O<yyyymmdd>:<strike>:<C|P>` (verbatim: `Subscription<_, MarketInstrumentData<usize>, _>`) or
+  `=base:quote:<kind…>` (un-keyed: `Subscription<_, MarketDataInstrument, _>`, the instrument key is the stored
+  instrument itself, printed `base:quote:<kind…>` with base / quote lower-cased); one `sub` line is all-formatted,
+  all-verbatim or all-un-keyed (a Rust subscription list has one instrument type); in the first two forms the
+  k-th instrument has key k.
 * `conf <channel> <symbol> <chanId>` — Bitfinex `subscribed` confirmation.
 * `msg <channel> <symbol> <chanId> <item>*` — `item = price:amount:<b|s>:time_ms`.
 
@@ -90,6 +92,25 @@ def parseVerbatim (s : String) : Option InstRep :=
     else none
   | _ => none
 
+/-- `=base:quote:<kind…>`: the un-keyed representation (plain `MarketDataInstrument`) -/
+def parseUnkeyed (s : String) : Option Inst :=
+  if s.startsWith "=" then parseInst (s.drop 1).toString else none
+
+/-- the instruments of one un-keyed `sub` line (non-empty, every token `=…`) -/
+def parseUnkeyedAll (toks : List String) : Option (List Inst) :=
+  if toks.isEmpty || !toks.all (·.startsWith "=") then none else
+  toks.foldr (fun t acc => do let i ← parseUnkeyed t; let r ← acc; some (i :: r)) (some [])
+
+def fmtIKind : IKind → String
+  | .spot => "S"
+  | .perpetual => "P"
+  | .future d => "F" ++ String.ofList (fmtYmd4 d)
+  | .option d k c => "O" ++ String.ofList (fmtYmd4 d) ++ ":" ++ toString k ++ ":" ++ (if c then "C" else "P")
+
+/-- an instrument key of the un-keyed path, in the token syntax of the `sub` line -/
+def fmtInst (i : Inst) : String :=
+  String.ofList i.base ++ ":" ++ String.ofList i.quote ++ ":" ++ fmtIKind i.kind
+
 def parseRep (s : String) : Option InstRep :=
   if s.startsWith "@" then parseVerbatim s else (parseInst s).map .formatted
 
@@ -141,8 +162,9 @@ def sortByKey (m : IMap) : IMap :=
 def fmtMap (m : IMap) : String :=
   "map " ++ " ".intercalate ((sortByKey m).map fun (id, k) => toString k ++ "=" ++ String.ofList id)
 
-def fmtEvent (ev : Event) : List String :=
-  ("ev " ++ toString ev.key ++ " " ++ exchName ev.exch ++ " " ++ toString ev.time) ::
+/-- the observation lines of an event whose key is printed as `key` -/
+def fmtEventWith (key : String) (ev : Event) : List String :=
+  ("ev " ++ key ++ " " ++ exchName ev.exch ++ " " ++ toString ev.time) ::
   match ev.kind with
   -- `dk <name> 1`: converted to `MarketEvent<_, DataKind>` (event.rs `From` impls) the event is of its own
   -- kind (`DataKind::kind_name`) and the accessor of that kind hands back the same event
@@ -153,9 +175,26 @@ def fmtEvent (ev : Event) : List String :=
   | .l2 bs as => ["l2 b " ++ fmtLevels bs ++ " a " ++ fmtLevels as, "dk l2 1"]
   | .liq p q s => ["liq " ++ fmtRat p ++ " " ++ fmtRat q ++ " " ++ sideStr s, "dk liquidation 1"]
 
+def fmtEvent (ev : Event) : List String := fmtEventWith (toString ev.key) ev
+
+def fmtEventU (ev : EventU) : List String := fmtEventWith (fmtInst ev.key) ⟨0, ev.exch, ev.time, ev.kind⟩
+
+/-- position of the LAST subscription whose stored instrument is `key` (the harness lists a map entry
+there; for un-keyed subscriptions two entries never share a key: the id is a function of the key) -/
+def lastPos (subs : List Inst) (key : Inst) : Nat :=
+  (subs.zipIdx.foldl (fun acc (i, k) => if i.canon = key then k else acc) subs.length)
+
+def fmtMapU (subs : List Inst) (m : UMap) : String :=
+  let sorted := m.foldl (fun acc e =>
+    let (lo, hi) := acc.span (fun x => lastPos subs x.2 ≤ lastPos subs e.2)
+    lo ++ e :: hi) []
+  "map " ++ " ".intercalate (sorted.map fun (id, k) => fmtInst k ++ "=" ++ String.ofList id)
+
 structure St where
   pair : Option Pair := none
   map : IMap := []
+  /-- `some (subs, map)`: the case subscribed un-keyed instruments; `map` above is then unused -/
+  unkeyed : Option (List Inst × UMap) := none
 
 def parseNoise : String → Option Noise
   | "kraken_hb" => some .krakenHeartbeat
@@ -169,23 +208,38 @@ def model : Drv St where
   step s toks :=
     match toks with
     | "sub" :: e :: k :: insts =>
-      match parsePair e k, parseReps insts with
-      | some p, some subs =>
+      match parsePair e k, parseUnkeyedAll insts, parseReps insts with
+      | some p, some subs, _ =>
+        -- the un-keyed path: `Map<MarketDataInstrument>` (`mapOfU`), events keyed by the instrument
+        let m := mapOfU p subs
+        (⟨some p, [], some (subs, m)⟩, [fmtMapU subs m])
+      | some p, none, some subs =>
         let m := mapOfR p subs
-        (⟨some p, m⟩, [fmtMap m])
-      | _, _ => (s, ["bad-op"])
+        (⟨some p, m, none⟩, [fmtMap m])
+      | _, _, _ => (s, ["bad-op"])
     | ["conf", chan, mkt, cid] =>
       match s.pair, cid.toNat? with
       | some p, some cid =>
         if p.exch = .bitfinex then
-          let m := bitfinexSubscribed s.map chan.toList mkt.toList cid
-          ({ s with map := m }, [fmtMap m])
+          match s.unkeyed with
+          | some (subs, mu) =>
+            let m := bitfinexSubscribedU mu chan.toList mkt.toList cid
+            ({ s with unkeyed := some (subs, m) }, [fmtMapU subs m])
+          | none =>
+            let m := bitfinexSubscribed s.map chan.toList mkt.toList cid
+            ({ s with map := m }, [fmtMap m])
         else (s, ["bad-op"])
       | _, _ => (s, ["bad-op"])
     | "msg" :: rest =>
       match s.pair, parseMsg rest with
       | some p, some msg =>
         if !shapeOk p msg then (s, ["bad-op"]) else
+        match s.unkeyed with
+        | some (_, mu) =>
+          match transformU p mu msg with
+          | .events evs => (s, ("nev " ++ toString evs.length) :: (evs.map fmtEventU).flatten)
+          | .unidentifiable id => (s, ["nev 1", "err unidentifiable", "errid " ++ String.ofList id])
+        | none =>
         match transform p s.map msg with
         | .events evs => (s, ("nev " ++ toString evs.length) :: (evs.map fmtEvent).flatten)
         | .unidentifiable id => (s, ["nev 1", "err unidentifiable", "errid " ++ String.ofList id])
@@ -206,6 +260,8 @@ structure SpecSt where
   pair : Option Pair := none
   subs : List InstRep := []
   confs : List (Str × Nat) := []
+  /-- un-keyed subscriptions: the instrument key the property demands IS the subscribed instrument -/
+  unkeyed : Bool := false
 
 /-- venues whose trade payload carries the symbol per trade: an empty message names no market -/
 def perItemSymbol : Exch → Bool
@@ -213,8 +269,8 @@ def perItemSymbol : Exch → Bool
   | .gateioOptions => true
   | _ => false
 
-def specEvents (p : Pair) (key : Nat) (msg : Msg) : List String :=
-  let hdr (t : Int) := "ev " ++ toString key ++ " " ++ exchName p.exch ++ " " ++ toString t
+def specEvents (p : Pair) (key : String) (msg : Msg) : List String :=
+  let hdr (t : Int) := "ev " ++ key ++ " " ++ exchName p.exch ++ " " ++ toString t
   match p.kind with
   | .publicTrades =>
     ("nev " ++ toString msg.items.length) ::
@@ -251,9 +307,10 @@ def spec : Drv SpecSt where
   step s toks :=
     match toks with
     | "sub" :: e :: k :: insts =>
-      match parsePair e k, parseReps insts with
-      | some p, some subs => (⟨some p, subs, []⟩, [])
-      | _, _ => (s, ["bad-op"])
+      match parsePair e k, parseUnkeyedAll insts, parseReps insts with
+      | some p, some subs, _ => (⟨some p, subs.map .formatted, [], true⟩, [])
+      | some p, none, some subs => (⟨some p, subs, [], false⟩, [])
+      | _, _, _ => (s, ["bad-op"])
     | ["conf", _, mkt, cid] =>
       match s.pair, cid.toNat? with
       | some p, some cid =>
@@ -271,9 +328,22 @@ def spec : Drv SpecSt where
         match symbol with
         | none => (s, ["nev 1", "err unidentifiable"])
         | some m =>
+          if s.unkeyed then
+            -- un-keyed subscriptions: "the subscribed instrument" is the instrument as subscribed (asset
+            -- names are case-insensitive: lower-cased); the same instrument subscribed twice is ONE
+            -- instrument, two different instruments with one venue symbol leave the key open
+            let shown (k : Nat) : String :=
+              match s.subs[k]? with
+              | some (.formatted i) => fmtInst ⟨lower i.base, lower i.quote, i.kind⟩
+              | _ => toString k
+            match holdersR p.exch s.subs m with
+            | [] => (s, ["nev 1", "err unidentifiable"])
+            | k :: ks =>
+              if ks.all (fun j => shown j == shown k) then (s, specEvents p (shown k) msg) else (s, [])
+          else
           match specVerdictR p.exch s.subs m with
           | .rejected => (s, ["nev 1", "err unidentifiable"])
-          | .attributed key => (s, specEvents p key msg)
+          | .attributed key => (s, specEvents p (toString key) msg)
           | .ambiguous => (s, [])
       | _, _ => (s, ["bad-op"])
     | ["noise", v] =>
